@@ -569,12 +569,52 @@ pub fn run_multi(ctx: &Ctx, id: &str, bins: &[&str]) -> i32 {
     // replays go to the binary that produced them
     if let Some(rp) = &ctx.replay {
         let sub = rp["sub"].as_str().unwrap_or("");
+        if sub == "pb-runtime" {
+            return crate::c05::replay(ctx);
+        }
+        if sub == "pb-runtime-merge" {
+            return crate::c05::c18_replay(ctx);
+        }
+        if sub == "pb-runtime-chain" || sub == "pb-runtime-fault" {
+            return crate::c05::c10_replay(ctx);
+        }
         let bin = if sub.starts_with("proto") { bins.iter().find(|b| b.starts_with("gentp")).copied().unwrap_or("gentp") } else { "gent" };
         return run_bin(ctx, id, bin, false);
     }
     let rec = std::cell::RefCell::new(vcore::evidence::Recorder::new(id, ctx.tier, ctx.seed));
     rec.borrow_mut().level = if ["C09", "C10", "C19"].contains(&id) { "fault_enumeration" } else { "exploration" };
     let mut code = 0;
+    if id == "C05" {
+        // the field codec modules themselves, over run-time described messages
+        vcore::evidence::quiet_panics();
+        crate::c05::runtime_part(ctx, &rec);
+        rec.borrow_mut().rule = format!(" || {}", crate::c05::RULE);
+        if rec.borrow().violations.is_empty() {
+            if let Some(c) = crate::common::require_classes(&rec, &crate::c05::REQUIRED) {
+                code = combine(code, c);
+            }
+        }
+    }
+    if id == "C18" {
+        vcore::evidence::quiet_panics();
+        crate::c05::c18_runtime_part(ctx, &rec);
+        rec.borrow_mut().rule = format!(" || {}", crate::c05::C18_RULE);
+        if rec.borrow().violations.is_empty() {
+            if let Some(c) = crate::common::require_classes(&rec, &["runtime: merge with a group", "runtime: merge with a map", "runtime: field numbers >= 16 congruent mod 16"]) {
+                code = combine(code, c);
+            }
+        }
+    }
+    if id == "C10" {
+        vcore::evidence::quiet_panics();
+        crate::c05::c10_runtime_part(ctx, &rec);
+        rec.borrow_mut().rule = format!(" || {}", crate::c05::C10_RULE);
+        if rec.borrow().violations.is_empty() {
+            if let Some(c) = crate::common::require_classes(&rec, &["runtime: chain of known groups / messages", "runtime: faulted message with a group", "runtime: faulted message with a map"]) {
+                code = combine(code, c);
+            }
+        }
+    }
     for bin in bins {
         let part = vcore::evidence::Recorder::partial_path(id);
         let _ = std::fs::remove_file(&part);
